@@ -25,12 +25,46 @@ fn ctor(name: &str) -> Option<Response> {
     })
 }
 
-const KINDS: [ErrorKind; 5] = [
+const KINDS: [ErrorKind; 39] = [
     ErrorKind::NotFound,
     ErrorKind::PermissionDenied,
     ErrorKind::InvalidData,
     ErrorKind::UnexpectedEof,
     ErrorKind::Other,
+    ErrorKind::ConnectionRefused,
+    ErrorKind::ConnectionReset,
+    ErrorKind::ConnectionAborted,
+    ErrorKind::NotConnected,
+    ErrorKind::AddrInUse,
+    ErrorKind::AddrNotAvailable,
+    ErrorKind::BrokenPipe,
+    ErrorKind::AlreadyExists,
+    ErrorKind::WouldBlock,
+    ErrorKind::InvalidInput,
+    ErrorKind::TimedOut,
+    ErrorKind::WriteZero,
+    ErrorKind::Interrupted,
+    ErrorKind::Unsupported,
+    ErrorKind::OutOfMemory,
+    ErrorKind::StorageFull,
+    ErrorKind::QuotaExceeded,
+    ErrorKind::FileTooLarge,
+    ErrorKind::ReadOnlyFilesystem,
+    ErrorKind::DirectoryNotEmpty,
+    ErrorKind::IsADirectory,
+    ErrorKind::NotADirectory,
+    ErrorKind::ResourceBusy,
+    ErrorKind::Deadlock,
+    ErrorKind::TooManyLinks,
+    ErrorKind::InvalidFilename,
+    ErrorKind::ArgumentListTooLong,
+    ErrorKind::HostUnreachable,
+    ErrorKind::NetworkUnreachable,
+    ErrorKind::NetworkDown,
+    ErrorKind::NotSeekable,
+    ErrorKind::StaleNetworkFileHandle,
+    ErrorKind::CrossesDevices,
+    ErrorKind::ExecutableFileBusy,
 ];
 
 fn err_value(name: &str, kind: ErrorKind, text: String) -> Option<HttpError> {
@@ -115,8 +149,65 @@ fn conn_case(code: u16, headers: &[&str]) -> String {
     format!("{status} {} {}", u8::from(has_close), u8::from(shut_state && eof))
 }
 
+/// reqconn <variant> <bytes>: the bytes are a client's whole input (then half-close); the server side runs
+/// handle_http_conn with a handler answering 200; what the error path of the connection loop sent:
+/// `<status> <marked connection: close> <write side shut and EOF seen>`
+fn reqconn_case(bytes: &[u8]) -> String {
+    use std::io::Write;
+    let listener = std::net::TcpListener::bind("127.0.0.1:0").unwrap();
+    let addr = listener.local_addr().unwrap();
+    let mut client = std::net::TcpStream::connect(addr).unwrap();
+    let (server_std, peer) = listener.accept().unwrap();
+    client.write_all(bytes).unwrap();
+    client.shutdown(std::net::Shutdown::Write).unwrap();
+    let reader = {
+        let mut c = client.try_clone().unwrap();
+        std::thread::spawn(move || {
+            c.set_read_timeout(Some(std::time::Duration::from_secs(3))).unwrap();
+            let mut data = Vec::new();
+            let mut buf = [0u8; 4096];
+            let mut eof = false;
+            loop {
+                match c.read(&mut buf) {
+                    Ok(0) => {
+                        eof = true;
+                        break;
+                    }
+                    Ok(n) => data.extend_from_slice(&buf[..n]),
+                    Err(e) if e.kind() == std::io::ErrorKind::ConnectionReset => {
+                        eof = true;
+                        break;
+                    }
+                    Err(_) => break,
+                }
+            }
+            (data, eof)
+        })
+    };
+    let stream = async_net::TcpStream::try_from(server_std).unwrap();
+    let conn = HttpConn::new(peer, stream);
+    let permit = permit::Permit::new();
+    futures_lite::future::block_on(servlin::internal::handle_http_conn(
+        permit.new_sub(),
+        servlin::internal::Token::new(),
+        conn,
+        None,
+        65536,
+        |_req: servlin::Request| async { Response::new(200) },
+    ));
+    let (data, eof) = reader.join().unwrap();
+    let text = String::from_utf8_lossy(&data).to_string();
+    if text.is_empty() {
+        return format!("none 0 {}", u8::from(eof));
+    }
+    let status: String = text.split(' ').nth(1).unwrap_or("?").to_string();
+    let head = text.split("\r\n\r\n").next().unwrap_or("");
+    let has_close = head.split("\r\n").skip(1).any(|l| l.eq_ignore_ascii_case("connection: close"));
+    format!("{status} {} {}", u8::from(has_close), u8::from(eof))
+}
+
 fn main() {
-    run_lines(|toks| match toks[0] {
+    run_lines_marked(|toks| match toks[0] {
         "ctor" => match ctor(&ascii_of_tok(toks[1])) {
             None => "unknown".to_string(),
             Some(r) => format!("K {} {}", r.code, u8::from(r.kind == ResponseKind::Normal)),
@@ -144,6 +235,7 @@ fn main() {
             }
         }
         "conn" => conn_case(toks[1].parse().unwrap(), &toks[2..]),
+        "reqconn" => reqconn_case(&bytes_of_tok(toks[2])),
         _ => "?".to_string(),
     });
 }
